@@ -65,7 +65,7 @@ def mdp_specs(draw, flavour="discounted", min_states=1, max_states=5, max_action
     if proper:
         # state 0 is always a goal so that ranks are well founded
         if kinds[0] == "n":
-            kinds[0] = draw(st.sampled_from(["abs", "imp"]))
+            kinds[0] = draw(st.sampled_from(sorted(set(absorbing_kinds) - {"n"}) or ["abs"]))
     trans = []
     absorbing = []
     for s in range(n):
